@@ -710,6 +710,10 @@ class BaseTransform:
          [  0.   0. 120.]
          [  0.   0. 135.]]
         """
+        if isinstance(seq, str) and len(seq) == 1 and np.ndim(angle) == 1:
+            # n angles about a single axis are n rotations (vector input), make this
+            # explicit, recent scipy versions no longer infer it from shape (n,)
+            angle = np.reshape(angle, (-1, 1))
         rot = R.from_euler(seq, angle, degrees=degrees)
         return self.rotate(rot, anchor=anchor, start=start)
 
